@@ -41,9 +41,10 @@ Print Assumptions C02_complete_defaults.
    with the node conditions of the ingredients: arities as the constructors guarantee (And Or
    Plus Times with >= 2 arguments), canonical Real constants with positive denominator, BV
    constants in range, BV payload widths > 0, no negation directly under a negation or as a
-   divisor.  NOT covered: Pow, bv extract / rotate-left / rotate-right / zero-extend /
+   divisor.  NOT covered by these four: Pow, bv extract / rotate-left / rotate-right / zero-extend /
    sign-extend, string operators, array select / store / values, quantifiers, function
-   applications.
+   applications - the `_wide_partial` theorems further down cover all of these except Pow,
+   quantifiers and function applications.
    Vocabulary: model_ok m = every entry is (symbol, constant of the symbol's sort, as the manager
    builds it); agrees I m = I gives every assigned symbol the value of its constant; defaults_on
    I m f = I gives every unassigned free symbol of f the value of default_value of its sort;
@@ -120,6 +121,68 @@ Theorem C02_get_value_example_bv :
   satisfies no_oracle exb_m exb_f = Some true.
 Proof. exact get_value_example_bv. Qed.
 
+(* ---- the same clauses on a WIDER fragment (proofs/EagerModelSemWide_proofs.v): [gwfrag f] = well-formed
+   (C01's okt) and every operator except Pow, function applications and quantifiers - so also every string
+   operator, array select / store / values / equality (with literal array values; array-sorted SYMBOLS have no
+   default and cannot be assigned a constant in a model_ok model: for them get_value raises), ToReal and all
+   bit-vector operators.  Substituting the model is total there (every constructor succeeds), C05's typed
+   substitution lemma gives sort and value, C01's fold_complete_wide gives the constant.  Side conditions, on f
+   under I:  nodiv0 I f (as above) and  strlim I f: every str.to_int argument has at most 4300 characters and
+   every str.from_int argument is below 10^4300 - CPython's int <-> str conversion limit
+   (sys.get_int_max_str_digits(), modelled in core/PyPrims.v), beyond which the simplifier leaves the node
+   unfolded and get_value raises.  The returned constant may be an array value: [is_constant] (Ctors). *)
+From PySMT.proofs Require Import SimplifierFoldWide_proofs EagerModelSemWide_proofs.
+
+Theorem C02_get_value_exact_wide_partial : forall ora m f ty I c,
+  model_ok m -> gwfrag f = true -> tc f = Some ty ->
+  wf_interp I -> agrees I m -> defaults_on I m f -> nodiv0 I f -> strlim I f ->
+  get_value ora m f true = Some c ->
+  is_constant c = true /\ tc c = Some ty /\ okt c = true /\ eval I c = eval I f.
+Proof. exact get_value_exact_wide. Qed.
+
+(* it DOES return the constant *)
+Theorem C02_get_value_total_wide_partial : forall ora m f ty I (completion : bool),
+  model_ok m -> gwfrag f = true -> tc f = Some ty ->
+  wf_interp I -> agrees I m -> defaults_on I m f -> nodiv0 I f -> strlim I f ->
+  (if completion
+   then forall n t, In (n, t) (fv f) -> lookup m (TSym n t) = None -> default_value t <> None
+   else covered m f) ->
+  exists c, get_value ora m f completion = Some c /\ is_constant c = true /\ tc c = Some ty /\ eval I c = eval I f.
+Proof. exact get_value_total_wide. Qed.
+
+(* without completion: a returned constant is the value under EVERY well-formed extension of m in which no
+   divisor of f evaluates to 0 *)
+Theorem C02_get_value_partial_sound_wide_partial : forall ora m f ty c,
+  model_ok m -> gwfrag f = true -> tc f = Some ty ->
+  get_value ora m f false = Some c ->
+  is_constant c = true /\
+  forall I, wf_interp I -> agrees I m -> nodiv0 I f -> eval I c = eval I f.
+Proof. exact get_value_partial_sound_wide. Qed.
+
+Theorem C02_satisfies_iff_wide_partial : forall ora m f I b,
+  model_ok m -> gwfrag f = true -> tc f = Some TBool ->
+  wf_interp I -> agrees I m -> defaults_on I m f -> nodiv0 I f -> strlim I f ->
+  satisfies ora m f = Some b -> (b = true <-> eval I f = VBool true).
+Proof. exact satisfies_iff_wide. Qed.
+
+Theorem C02_get_value_exact_model_wide_partial : forall ora m f ty c,
+  model_ok m -> gwfrag f = true -> tc f = Some ty -> nodiv0 (model_interp m) f -> strlim (model_interp m) f ->
+  get_value ora m f true = Some c ->
+  is_constant c = true /\ tc c = Some ty /\ eval (model_interp m) c = eval (model_interp m) f.
+Proof. exact get_value_exact_model_wide. Qed.
+
+(* strings and arrays: f = str.to_int(sx ++ "2") = i + 40 & select(store(K(0)[1 := 5], k, str.len(sx)), 2) = 1 &
+   str.prefixof("4", sx) & store(K(0), k, 1) = K(0)[2 := 1],  m = {sx := "4", i := 2, k := 2};
+   with only sx assigned and no completion the call raises *)
+Theorem C02_get_value_example_wide :
+  model_ok exw_m /\ gwfrag exw_f = true /\ tc exw_f = Some TBool /\
+  nodiv0 (model_interp exw_m) exw_f /\ strlim (model_interp exw_m) exw_f /\
+  get_value no_oracle exw_m exw_f true = Some TTrue /\
+  get_value no_oracle exw_m exw_f false = Some TTrue /\
+  get_value no_oracle [(exw_sx, TStrC [52]%Z)] exw_f false = None /\
+  satisfies no_oracle exw_m exw_f = Some true.
+Proof. exact get_value_example_wide. Qed.
+
 Print Assumptions C02_get_value_exact_partial.
 Print Assumptions C02_get_value_total_partial.
 Print Assumptions C02_get_value_partial_sound_partial.
@@ -128,3 +191,9 @@ Print Assumptions C02_model_interp_ok.
 Print Assumptions C02_get_value_exact_model_partial.
 Print Assumptions C02_get_value_example.
 Print Assumptions C02_get_value_example_bv.
+Print Assumptions C02_get_value_exact_wide_partial.
+Print Assumptions C02_get_value_total_wide_partial.
+Print Assumptions C02_get_value_partial_sound_wide_partial.
+Print Assumptions C02_satisfies_iff_wide_partial.
+Print Assumptions C02_get_value_exact_model_wide_partial.
+Print Assumptions C02_get_value_example_wide.
